@@ -366,6 +366,14 @@ func measureUnbounded(b *build.Built, w *ref.World, text string) (sm scaleMeasur
 		sm.exec += x
 	}
 	sm.abstractPlanned = e[graphql.VerifSiteAbstractPlanned]
+	// the same request through a cold normalising plan cache: validating and planning it that way includes computing
+	// the normalised key, which no step counter sees (the allocation measure and the wall-clock backstop do)
+	for _, norm := range []bool{true, false} {
+		pc := graphql.NewPlanCache(graphql.PlanCacheOptions{Normalize: norm})
+		if pr := pc.Get(&b.Schema, text, ""); pr.Plan == nil {
+			return sm, fmt.Errorf("scaled document rejected by the plan cache (normalize=%v): %v", norm, pr.Errors)
+		}
+	}
 	sm.alloc = allocatedBytes() - alloc0
 	// the same plan, the same values, once more: every runtime type was encountered before
 	graphql.VerifResetSteps()
